@@ -198,6 +198,8 @@ pub open spec fn line_spec(b: Seq<u8>) -> Option<(ARec, Seq<u8>)> {
         match class_spec(b) { Some(cs) => Some((ARec::Class { original: cs.0, obfuscated: cs.1 }, skip_nl(cs.2))), None => None }
     }
 }
+// the input starts where a line starts: it is empty or its first byte is not a line terminator
+pub open spec fn at_line_start(b: Seq<u8>) -> bool { b.len() == 0 || !spec_is_newline(b[0]) }
 // one item: the record of the first line, or an error that carries the first line with its one terminator byte
 pub open spec fn parse_spec(bytes: Seq<u8>) -> (AItem, Seq<u8>) {
     let b = skip_nl(bytes);
@@ -1550,13 +1552,16 @@ pub proof fn lemma_numeric_no_nl(b: Seq<u8>, k: int)
     f.ret("ret")
     f.props_all = ["C06", "C05", "C19"]; f.props_safety = P13
     f.replace_all_re(r"bytes\.starts_with\((b\"[^\"]*\")\)", r"shim_starts_with(bytes, \1)", "R2", why="<[u8]>::starts_with behind a shim (documented contract)", min_count=2)
+    # The line-level clauses are stated for input that starts at a line start (no leading terminator): that is what the properties talk about
+    # (C05: a line parsed alone or inside a file; C06: the iterator, which skips terminators before every item). Whether the function itself
+    # skips leading terminators or leaves that to its callers is not pinned here; progress, the suffix rule and totality hold for every input.
     f.contract("""    ensures
         /*@L:progress_on_non_empty_input:C06,C19*/ bytes@.len() > 0 ==> ret.1@.len() < bytes@.len(),
-        /*@L:ok_record_taken_within_first_line:C06*/ ret.0 is Ok ==> taken_within_first_line(skip_nl(bytes@), ret.1@),
-        /*@L:error_consumes_exactly_one_line:C06,C05*/ ret.0 is Err ==> ({ let b = skip_nl(bytes@);
+        /*@L:ok_record_taken_within_first_line:C06*/ at_line_start(bytes@) && ret.0 is Ok ==> taken_within_first_line(bytes@, ret.1@),
+        /*@L:error_consumes_exactly_one_line:C06,C05*/ at_line_start(bytes@) && ret.0 is Err ==> ({ let b = bytes@;
             ret.0->Err_0.line@ == b.subrange(0, line_end(b)) && ret.1@ == b.subrange(line_end(b), b.len() as int) }),
         /*@L:rest_is_a_suffix:C06*/ exists|k: int| 0 <= k <= bytes@.len() && ret.1@ == #[trigger] bytes@.subrange(k, bytes@.len() as int),
-        /*@L:item_and_rest_are_exactly_those_of_the_reference_parser:C06,C05*/ abs_item(ret.0) == parse_spec(bytes@).0 && ret.1@ == parse_spec(bytes@).1,""")
+        /*@L:item_and_rest_are_exactly_those_of_the_reference_parser:C06,C05*/ at_line_start(bytes@) ==> abs_item(ret.0) == parse_spec(bytes@).0 && ret.1@ == parse_spec(bytes@).1,""")
     f.body_start("let ghost b_in = bytes@;\n    proof { lemma_skip_nl_suffix(b_in); }\n")
     # snapshot of the input after the leading terminators were skipped (if the function does that first, as the pinned code does)
     if re.search(r"let bytes = consume_leading_newlines\(bytes\)", f.orig):
@@ -1566,7 +1571,10 @@ pub proof fn lemma_numeric_no_nl(b: Seq<u8>, k: int)
     f.insert_before("match result {", """proof {
         axiom_byte_literals_short();
         if result is Ok && !has_prefix(b1, lit_hash()) && has_prefix(b1, lit_4sp()) { lemma_member_record_is_the_reference_record(result->Ok_0.0, member_spec(b1)->0); }
-        let k0 = choose|k: int| 0 <= k <= b_in.len() && #[trigger] b_in.subrange(k, b_in.len() as int) == skip_nl(b_in);
+        // b1 (what the line parsers see) is a suffix of the input: the input itself, or the input without its leading terminators
+        assert(b_in.subrange(0, b_in.len() as int) =~= b_in);
+        let k0 = choose|k: int| 0 <= k <= b_in.len() && #[trigger] b_in.subrange(k, b_in.len() as int) == b1;
+        if at_line_start(b_in) { assert(skip_nl(b_in) == b_in && b1 == b_in); }
         if result is Ok {
             let r = result->Ok_0.1@;
             let k = choose|k: int| 1 <= k <= b1.len() && no_nl(#[trigger] b1.subrange(0, k)) && r == skip_nl(b1.subrange(k, b1.len() as int));
@@ -1589,8 +1597,8 @@ pub proof fn lemma_numeric_no_nl(b: Seq<u8>, k: int)
     f.ret("ret")
     f.props_all = ["C05"]; f.props_safety = P13
     f.contract("""    ensures
-        /*@L:try_parse_accepts_only_whole_input:C05*/ ret is Ok ==> whole_input_taken(skip_nl(line@)),
-        /*@L:try_parse_trailing_bytes_are_an_error_carrying_the_input:C05*/ (ret is Err && ret->Err_0.line@ != line@) ==> ({ let b = skip_nl(line@); ret->Err_0.line@ == b.subrange(0, line_end(b)) }),""")
+        /*@L:try_parse_accepts_only_whole_input:C05*/ at_line_start(line@) && ret is Ok ==> whole_input_taken(line@),
+        /*@L:try_parse_trailing_bytes_are_an_error_carrying_the_input:C05*/ (at_line_start(line@) && ret is Err && ret->Err_0.line@ != line@) ==> ({ let b = line@; ret->Err_0.line@ == b.subrange(0, line_end(b)) }),""")
     u.emit(f)
     u.raw("}\n", "glue")
 
